@@ -218,6 +218,8 @@ class C11(Property):
         ("antismash/detection/hmm_detection/__init__.py", "regenerate_previous_results"),
         ("antismash/detection/hmm_detection/__init__.py", "run_on_record"),
         ("antismash/detection/hmm_detection/__init__.py", "get_ruleset"),
+        ("antismash/detection/hmm_detection/__init__.py", "_get_rules"),
+        ("antismash/detection/hmm_detection/__init__.py", "_get_rule_files_for_strictness"),
         ("antismash/common/hmm_rule_parser/cluster_prediction.py", "detect_protoclusters_and_signatures"),
         ("antismash/common/hmm_rule_parser/cluster_prediction.py", "build_results"),
         ("antismash/common/serialiser.py", "AntismashResults.SCHEMA_VERSION"),
@@ -308,7 +310,8 @@ class C11(Property):
         "for exact positions; fuzzy positions (<5, >9) are not generated",
         "JSON values of an unexpected type, NaN/inf scores, extra qualifiers on protoclusters, T2PKS qualifiers and "
         "sideloaded protoclusters inside rule results are outside the modelled domain and not generated",
-        "get_ruleset(options).get_rule_names() is an input of the model (read from the real rule files per case); "
+        "the rule names of an option set are computed in the model (rulesetNames) from the rule files' content as read by "
+        "hmm_detection._get_rules (name, first strictness level, category) and compared with get_ruleset(options); "
         "results of records with genes are produced by the real run_on_record with only hmmsearch replaced by the case's hits",
         "results file: the record body (record_to_json / record_from_json) is opaque in the model (C10); identical HMM hits "
         "inside one gene (one dictionary key in generate_domain_features) are not generated",
@@ -1107,6 +1110,22 @@ class C11(Property):
         finally:
             cp.find_hmmer_hits = saved
 
+    _RULE_INFO: List[Any] = []
+
+    @classmethod
+    def rule_info(cls) -> List[Any]:
+        """[name, first strictness level defining it, category] straight from the rule files (no rule-set cache)"""
+        if not cls._RULE_INFO:
+            from antismash.detection import hmm_detection
+            seen: Dict[str, int] = {}
+            cats: Dict[str, str] = {}
+            for level, strictness in enumerate(["strict", "relaxed", "loose"]):
+                for rule in hmm_detection._get_rules(strictness):   # pylint: disable=protected-access
+                    seen.setdefault(rule.name, level)
+                    cats[rule.name] = rule.category
+            cls._RULE_INFO = [[name, level, cats[name]] for name, level in seen.items()]
+        return cls._RULE_INFO
+
     @staticmethod
     def det_config(o: Dict[str, Any]) -> Any:
         return config(hmmdetection_strictness=o["strictness"], hmmdetection_limit_to_rules=list(o["limit"]),
@@ -1151,14 +1170,17 @@ class C11(Property):
         obs: Dict[str, Any] = {
             "json_in": to_wire(j_in), "mutated": bool(mut) and applied,
             "ctx": {"record_id": cur_record_id, "cds_names": [g["name"] for g in case["record"]["genes"]], "original_id": case["record"]["id"]},
-            "opts": {"strictness": case["cur"]["strictness"], "rule_names": rule_names,
+            "impl_rule_names": rule_names,
+            "opts": {"strictness": case["cur"]["strictness"], "rules": self.rule_info(), "limit_names": list(case["cur"]["limit"]),
+                     "limit_categories": [],
                      "fungi": case["cur"]["taxon"] == "fungi", "cutoff": dec_of(fl(case["cur"]["cutoff"])),
                      "neighbourhood": dec_of(fl(case["cur"]["nbh"]))},
             "n_clusters": len(case["clusters"]) + len(x.get_predicted_protoclusters()) + (1 if via == "run" else 0)}
         obs["n_outside"], obs["n_protos"] = n_outside, n_protos
         if via == "run":
             obs["produced"] = {
-                "saved_opts": {"strictness": case["saved"]["strictness"], "rule_names": saved_names,
+                "saved_opts": {"strictness": case["saved"]["strictness"], "rules": self.rule_info(),
+                               "limit_names": list(case["saved"]["limit"]), "limit_categories": [],
                                "fungi": case["saved"]["taxon"] == "fungi", "cutoff": dec_of(fl(case["saved"]["cutoff"])),
                                "neighbourhood": dec_of(fl(case["saved"]["nbh"]))},
                 "fresh_json": fresh_wire, "no_genes": not case["record"]["genes"], "tool": x.rule_results.tool,
@@ -1643,7 +1665,10 @@ class C11(Property):
                 feats.append(DummyCDS(location=location, locus_tag=g["name"], translation="M" * 5))
             else:
                 feats.append(DummyCDS(g["lo"], g["hi"], g["strand"], locus_tag=g["name"]))
-        rec = renamed(DummyRecord(features=feats, seq=case["seq"], record_id=record_id or case["record_id"]), case["record_id"])
+        seq = case["seq"]
+        if record_id and record_id != case["record_id"]:
+            seq = seq[::-1]        # another record: same length and GC content, other codons
+        rec = renamed(DummyRecord(features=feats, seq=seq, record_id=record_id or case["record_id"]), case["record_id"])
         rec.add_subregion(DummySubRegion(0, len(case["seq"])))
         rec.create_regions()
         return rec
@@ -1651,11 +1676,6 @@ class C11(Property):
     def impl_tta(self, case: Dict[str, Any]) -> Dict[str, Any]:
         import orjson
         from antismash.modules import tta
-        rec0 = self.tta_record(case)
-        opts = config(tta_threshold=0.0)
-        everything = tta.detect(rec0, opts)
-        all_codons = [loc_obs(f.location) for f in everything.features]
-        gc = rec0.get_gc_content()
         opts = config(tta_threshold=fl(case["t0"]))
         x = tta.detect(self.tta_record(case), opts)
         j_in = orjson.loads(orjson.dumps(x.to_json()))
@@ -1668,6 +1688,11 @@ class C11(Property):
                 cur_record_id += "_0"
             elif mut == "empty_json":
                 j_in.clear()
+        # the codons and GC content of the record the results are offered to
+        rec0 = self.tta_record(case, cur_record_id)
+        everything = tta.detect(rec0, config(tta_threshold=0.0))
+        all_codons = [loc_obs(f.location) for f in everything.features]
+        gc = rec0.get_gc_content()
         obs: Dict[str, Any] = {"json_in": to_wire(j_in), "mutated": bool(mut), "gc": dec_of(gc), "all_codons": all_codons,
                                "ctx": {"record_id": cur_record_id, "cds_names": [], "original_id": case["record_id"]}, "steps": [],
                                "n_codons": len(all_codons)}
@@ -2013,6 +2038,11 @@ class C11(Property):
         if kind == "sideopt" and obs["saved_rec_id"] == obs["rec"]["id"] and obs["stored"] != drv.get("stored"):
             corr = False
             detail = detail or "annotations stored by run_on_record: " + self.first_diff(obs["stored"], drv.get("stored"))
+        if kind == "hmmdet" and "rule_names" in drv and sorted(drv["rule_names"]) != obs["impl_rule_names"]:
+            corr = False
+            spec_ok = False
+            detail = (f"get_ruleset(options) does not hold the rules of strictness {case['cur']['strictness']!r} with limits "
+                      f"{case['cur']['limit']}: {len(obs['impl_rule_names'])} rule names instead of {len(drv['rule_names'])}")
         if kind == "hmmdet" and "saved_under" in drv:
             if "fresh_model" in drv and obs["produced"]["fresh_json"] != drv["fresh_model"]:
                 corr = False
@@ -2130,7 +2160,17 @@ class C11(Property):
     def judge_tta(self, case: Dict[str, Any], obs: Dict[str, Any], drv: Dict[str, Any]) -> Judgement:
         corr, spec_ok, detail = True, True, ""
         msteps = drv["steps"]
+        foreign = obs["ctx"]["record_id"] != case["record_id"] and case.get("mut") == "record_id"
         for i, step in enumerate(obs["steps"]):
+            if foreign and step["outcome"] == "reuse" and "json" in step:
+                if step["called"] and not step["ran"]:
+                    spec_ok = False
+                    detail = detail or f"step {i}: TTA results saved for another record were kept by run_on_record"
+                elif not step["called"] and step["json"] is not None and step["features"] != "refuse:value-error":
+                    spec_ok = False
+                    detail = detail or f"step {i}: TTA results saved for another record were added to this record"
+            if step.get("ran"):
+                foreign = False
             if "json" in step and not step["equals_fresh"]:
                 spec_ok = False
                 detail = detail or (f"step {i}: results after {step['outcome']} differ from a fresh run under the "
